@@ -62,7 +62,7 @@ theorem C09_read_blocks_only_reader (step : T → Action T V E) (r : Runtime T V
 theorem C09_blocked_reader_turn (step : T → Action T V E) (r : Runtime T V E) (th : Thread T E)
     (rest : List (Thread T E)) (c : Nat) (k : V → T) (s : Nat)
     (hq : r.runQueue = th :: rest) (hn : r.newThreads = []) (hc : th.canRun = true)
-    (hrest : ∀ t ∈ rest, t.done = false)
+    (hrest : ∀ t ∈ rest, t.gone = false)
     (hs : step th.st = .read c k) (he : getQ r.chans c = []) :
     loop step 1 s r =
       ({ r with runQueue := rest ++ [th], trace := r.trace ++ [⟨th.id, .readBlocked c⟩] }, false, s + 1) := by
